@@ -23,7 +23,8 @@ class State:
     def copy(self):
         s = State()
         s.pc = list(self.pc)
-        s.locals = dict(self.locals)
+        # mutable Python containers held in locals are copied so that sibling paths do not share them
+        s.locals = {k: (list(v) if type(v) is list else (dict(v) if type(v) is dict else v)) for k, v in self.locals.items()}
         s.heap = dict(self.heap)
         s.log = list(self.log)
         s.guards = list(self.guards)
@@ -130,6 +131,10 @@ class CoreMixin:
         if head == 'ref':
             return Obj(term, parts[1] if len(parts) > 1 else None)
         if head == 'arr':
+            if len(parts) > 3:
+                # C array attribute of static length
+                ln = z3.Select(self.heap0.setdefault('$len', z3.Const('H0_$len', self.field_sort('$len'))), term)
+                self.add_fact(('clen', term.get_id()), z3.And(ln == int(parts[3]), term != NONE))
             return Obj(term, 'ndarray', 'arr', parts[1], int(parts[2]) if len(parts) > 2 else 1)
         if head == 'seq':
             return Obj(term, 'sequence', 'seq', parts[1] if len(parts) > 1 else 'ref', 1)
